@@ -28,6 +28,7 @@ type Knobs struct {
 	HealthyChecks    bool // checkers that always report healthy (instantly or only at their 100ms deadline)
 	Probes           bool
 	Promote          bool // blocking promote callbacks
+	TakeoverTies     bool // one priority for everybody, takeover enabled for most: nobody may preempt anybody
 	DemoteDur        bool
 	LongH            bool // allow H >= 2s (heartbeat time-out switches to H/2)
 	MinHorizonH      int
@@ -120,6 +121,10 @@ func GenPlan(t *rapid.T, profile string, k Knobs) *Plan {
 		groups = rapid.IntRange(1, k.MaxGroups).Draw(t, "groups")
 	}
 	latMax := time.Duration(float64(h) * k.LatFrac)
+	tiePrio := 0
+	if k.TakeoverTies && rapid.Bool().Draw(t, "takeover_ties") {
+		tiePrio = rapid.SampledFrom([]int{1, 5, 100}).Draw(t, "tie_prio")
+	}
 	for i := 0; i < n; i++ {
 		in := Inst{ID: fmt.Sprintf("i%d", i), Group: fmt.Sprintf("g%d", i%groups)}
 		in.Lat = genLatList(t, latMax, fmt.Sprintf("lat%d_", i))
@@ -129,6 +134,9 @@ func GenPlan(t *rapid.T, profile string, k Knobs) *Plan {
 		if k.Takeover {
 			in.Priority = rapid.SampledFrom([]int{0, 1, 1, 2, 2, 3, 100}).Draw(t, "prio")
 			in.Takeover = in.Priority > 0 && rapid.IntRange(0, 2).Draw(t, "takeover") > 0
+		}
+		if tiePrio > 0 {
+			in.Priority, in.Takeover = tiePrio, rapid.IntRange(0, 3).Draw(t, "takeover_tie") > 0
 		}
 		if k.Conn && rapid.IntRange(0, 3).Draw(t, "monitored") > 0 {
 			// (a monitored instance gets no OnDemote duration: the library invokes OnDemote under its
@@ -251,6 +259,12 @@ func GenPlan(t *rapid.T, profile string, k Knobs) *Plan {
 				}
 				p.Timeline = append(p.Timeline, ra)
 			}
+		}
+	}
+	if rapid.IntRange(0, 3).Draw(t, "sethandler_on") == 0 {
+		// the application registers its callbacks again (new functions) while the election runs
+		for j := rapid.IntRange(1, 3).Draw(t, "nsethandler"); j > 0; j-- {
+			p.Timeline = append(p.Timeline, Action{At: at("sethandler_at", 0, p.Horizon-1), Kind: ActSetHandler, Inst: rapid.IntRange(0, n-1).Draw(t, "sh_inst")})
 		}
 	}
 	if k.StopPhases {
